@@ -263,8 +263,8 @@ def main(argv):
 
     # -------------------------------------------------------------------- verdict
     if replay:
-        if violations:
-            print(f"REPLAY: property={prop} still fails: {violations[0]['what']}")
+        if new:
+            print(f"REPLAY: property={prop} still fails: {new[0]['what']}")
             return 1
         print(f"REPLAY: property={prop} no longer fails")
         return 0
